@@ -15,10 +15,16 @@ from vlib import graphs
 from vlib.cases import Case, Sub, call as _call0, evaluate as _evaluate
 from vlib.core import enc_csr, enc_list, enc_opt_list, enc_bool, dec_list, dec_pairs
 
-RULE = ('exhaustive digraphs (with explicit zeros / negative weights sampled) n<=3 (quick: +sampled n=4; thorough: all n=4, '
-        'sampled n=5) x source sets x {plain, transpose, bipartite routing}; structured random graphs n<=14; '
-        'a case is non-trivial when the graph has at least one edge and at least one node is at distance >= 1; '
-        'distinct = distinct (function, graph, arguments)')
+RULE = ('exhaustive unit-weight digraphs n<=3 x all source sets x {plain, transpose}; n=4 sampled in the quick tier (all in '
+        'thorough, plus 3000 samples of n=5), unit or mixed weights (explicit zeros, negative, fractional), dtypes '
+        'float/bool/int/uint8; structured random graphs n<=14 (half with unsorted indices, a third transposed); one long '
+        'path / cycle / grid with 20-30 nodes (thorough: 30-44); degenerate shapes (0x0, 2x0, 0x2, duplicate entries that cancel); bipartite '
+        'routing: every 0/1 biadjacency of the small shapes x {source, source_row} x source_col x transpose x '
+        'force_bipartite in {False, True} (both on square shapes); a malformed stream (out-of-range sources on either side, '
+        'source together with source_row, no source) compared by exception class; get_dag orders drawn from [-3, n+2], '
+        'scaled, all-negative and all-equal vectors. A get_distances / get_shortest_path case is non-trivial when the graph '
+        'has an edge and some node is at distance >= 1 (resp. the DAG has an edge); a bfs / get_dag case when the graph has an '
+        'edge; distinct = distinct (function, graph, arguments)')
 ASSUMPTIONS = ['scipy csr construction / astype(bool) / tocoo / T are the substrate (monitored through the outputs)',
                'np.argsort returns some sorting permutation (breadth_first_search is compared up to ties)']
 
@@ -38,16 +44,21 @@ def _as_src(s):
     return s
 
 
-def cases_for_graph(ctx, a, rng, source_sets, full=True):
+def cases_for_graph(ctx, a, rng, source_sets, full=True, transposes=False, forms=None, orders=None, bfs_nodes=None):
     """All request lines for one square matrix `a` (csr) and the given source sets."""
     from sknetwork.path import get_distances, get_shortest_path, breadth_first_search, get_dag
     n = a.shape[0]
     g = enc_csr(a)
     out = []
-    gdesc = {'n': n, 'indptr': a.indptr.tolist(), 'indices': a.indices.tolist(), 'data': a.data.tolist()}
+    gdesc = {'n': n, 'indptr': a.indptr.tolist(), 'indices': a.indices.tolist(), 'data': a.data.tolist(),
+             'dtype': str(a.dtype)}
     for s in source_sets:
-        src_arg = s[0] if (len(s) == 1 and rng.random() < 0.5) else list(s)
-        for tr in ([False, True] if full else [False]):
+        form = forms.get(tuple(s)) if forms else None
+        if form is None:
+            form = rng.choice(['int', 'list']) if len(s) == 1 else rng.choice(['list', 'list', 'array'])
+        src_arg = s[0] if (len(s) == 1 and form == 'int') else (np.array(s) if form == 'array' else list(s))
+        trs = [False, True] if (full or transposes) else [False]
+        for tr in trs:
             def f():
                 d = get_distances(a, source=src_arg, transpose=tr)
                 return 'ok s ' + enc_list(d)
@@ -58,7 +69,8 @@ def cases_for_graph(ctx, a, rng, source_sets, full=True):
                 spec = 'c10.spec_dist %s %s 0 %s %s' % (g, enc_bool(tr), enc_list(s), impl[5:])
             nontriv = a.nnz > 0 and impl.startswith('ok') and any(x > 0 for x in dec_list(impl[5:]))
             out.append(Case(('dist', g, tuple(s), tr), {'entry': 'get_distances', 'transpose': tr, 'bipartite': False},
-                            run, impl, spec, nontriv, {'f': 'get_distances', 'graph': gdesc, 'source': s, 'transpose': tr}))
+                            run, impl, spec, nontriv,
+                            {'f': 'get_distances', 'graph': gdesc, 'source': s, 'transpose': tr, 'form': form}))
         # shortest path DAG
 
         def f2():
@@ -68,9 +80,10 @@ def cases_for_graph(ctx, a, rng, source_sets, full=True):
         run = 'c10.path %s %s _ _ 0' % (g, enc_list(s))
         spec = None
         if impl.startswith('ok '):
-            spec = 'c10.spec_path %s 0 0 %s %s' % (g, enc_list(s), impl.split(' ')[2])
+            spec = 'c10.spec_path %s 0 0 %s %s %s' % (g, enc_list(s), impl.split(' ')[1], impl.split(' ')[2])
         out.append(Case(('path', g, tuple(s)), {'entry': 'get_shortest_path', 'bipartite': False}, run, impl, spec,
-                        a.nnz > 0 and impl.split(' ')[-1] != '-', {'f': 'get_shortest_path', 'graph': gdesc, 'source': s}))
+                        a.nnz > 0 and impl.split(' ')[-1] != '-',
+                        {'f': 'get_shortest_path', 'graph': gdesc, 'source': s, 'form': form}))
         # get_dag with source
         if full:
             def f3():
@@ -78,11 +91,14 @@ def cases_for_graph(ctx, a, rng, source_sets, full=True):
             impl = _call(f3)
             run = 'c10.dag %s %s %s %s %s _' % (n, enc_list(a.indptr), enc_list(a.indices),
                                                g.split(' ')[4], enc_list(s))
-            out.append(Case(('dagsrc', g, tuple(s)), {'entry': 'get_dag', 'mode': 'source'}, run, impl, None,
-                            a.nnz > 0, {'f': 'get_dag', 'graph': gdesc, 'source': s}))
+            spec = None
+            if impl.startswith('ok '):
+                spec = 'c10.spec_path %s 0 0 %s %s' % (g, enc_list(s), impl.split(' ')[1])
+            out.append(Case(('dagsrc', g, tuple(s)), {'entry': 'get_dag', 'mode': 'source'}, run, impl, spec,
+                            a.nnz > 0, {'f': 'get_dag', 'graph': gdesc, 'source': s, 'form': form}))
     gsq = '%s %s %s %s' % (n, enc_list(a.indptr), enc_list(a.indices), g.split(' ')[4])
     # breadth first search from every node (quick: two nodes)
-    nodes = list(range(n)) if full else rng.sample(range(n), min(n, 2))
+    nodes = bfs_nodes if bfs_nodes is not None else (list(range(n)) if full else rng.sample(range(n), min(n, 2)))
     for s in nodes:
         def f4():
             return 'ok ' + enc_list(breadth_first_search(a, s))
@@ -92,9 +108,20 @@ def cases_for_graph(ctx, a, rng, source_sets, full=True):
         out.append(Case(('bfs', g, s), {'entry': 'breadth_first_search'}, run, impl, spec, a.nnz > 0,
                         {'f': 'breadth_first_search', 'graph': gdesc, 'source': s}, canon='bfs'))
     # get_dag with explicit orders (ties, negatives) and the default order
-    orders = [None]
-    for _ in range(2 if full else 1):
-        orders.append([rng.randint(-1, max(1, n - 1)) for _ in range(n)])
+    if orders is None:
+        orders = [None]
+        for _ in range(2 if full else 1):
+            orders.append([rng.randint(-3, n + 2) for _ in range(n)])
+        if n > 0:
+            kind = rng.randrange(4 if full else 8)
+            if kind == 0:
+                orders.append([o * 1000 - 7 for o in orders[1]])            # scaled: large values, large negatives
+            elif kind == 1:
+                orders.append([-rng.randint(1, 3) for _ in range(n)])       # all negative
+            elif kind == 2:
+                orders.append([rng.choice([-2, 0, 5])] * n)                 # all equal
+            elif kind == 3:
+                orders.append([rng.choice([-1, 4 * 10 ** 12, 7]) for _ in range(n)])
     for o in orders:
         def f5():
             return 'ok ' + _enc_pairs(get_dag(a, order=None if o is None else np.array(o)))
@@ -107,73 +134,114 @@ def cases_for_graph(ctx, a, rng, source_sets, full=True):
     return out
 
 
-def cases_for_bigraph(ctx, b, rng, full=True):
-    """Routing of get_distances / get_shortest_path on a biadjacency matrix (rectangular or forced)."""
+def _bi_case(ctx, b, g, gdesc, sr2, sc2, use_source, tr, fb, out, malformed=False):
+    """One get_distances (and, untransposed, one get_shortest_path) call on a biadjacency / square matrix with the
+    given row sources (passed as `source` or `source_row`), column sources, transposition and flag."""
     from sknetwork.path import get_distances, get_shortest_path
     nr, nc = b.shape
-    g = enc_csr(b)
-    gdesc = {'shape': [nr, nc], 'indptr': b.indptr.tolist(), 'indices': b.indices.tolist(), 'data': b.data.tolist()}
-    out = []
-    combos = []
-    rows = [None] + [[i] for i in range(nr)] + ([list(range(nr))] if nr > 1 else [])
-    cols = [None] + [[j] for j in range(nc)] + ([list(range(nc))] if nc > 1 else [])
-    for sr in rows:
-        for sc in cols:
-            for use_source in (False, True):
-                for tr in (False, True):
-                    combos.append((sr, sc, use_source, tr))
-    if not full:
-        combos = rng.sample(combos, min(len(combos), 6))
-    for sr, sc, use_source, tr in combos:
-        fb = (nr == nc) or rng.random() < 0.3
-        # with transpose the roles of rows and columns swap: indices must fit the transposed shape
-        r_lim, c_lim = (nc, nr) if tr else (nr, nc)
-        sr2 = None if sr is None else [x for x in sr if x < r_lim] or None
-        sc2 = None if sc is None else [x for x in sc if x < c_lim] or None
-        kw = {}
-        src_tok, sr_tok, sc_tok = '_', '_', '_'
-        if use_source and sr2 is not None:
-            kw['source'] = sr2
-            src_tok = enc_list(sr2)
-        elif sr2 is not None:
-            kw['source_row'] = sr2
-            sr_tok = enc_list(sr2)
-        if sc2 is not None:
-            kw['source_col'] = sc2
-            sc_tok = enc_list(sc2)
+    r_lim = nc if tr else nr
+    kw = {}
+    src_tok, sr_tok, sc_tok = '_', '_', '_'
+    if use_source and sr2 is not None:
+        kw['source'] = sr2
+        src_tok = enc_list(sr2)
+    elif sr2 is not None:
+        kw['source_row'] = sr2
+        sr_tok = enc_list(sr2)
+    if sc2 is not None:
+        kw['source_col'] = sc2
+        sc_tok = enc_list(sc2)
+    if isinstance(use_source, tuple):      # malformed: both `source` and `source_row`
+        kw['source'], kw['source_row'] = list(use_source[0]), list(use_source[1])
+        src_tok, sr_tok = enc_list(kw['source']), enc_list(kw['source_row'])
+    tag = 'malformed' if malformed else 'routing'
 
-        def f():
-            d = get_distances(b, transpose=tr, force_bipartite=fb, **kw)
-            if isinstance(d, tuple):
-                return 'ok p %s %s' % (enc_list(d[0]), enc_list(d[1]))
-            return 'ok s ' + enc_list(d)
-        impl = _call(f)
-        run = 'c10.dist %s %s %s %s %s %s' % (g, src_tok, sr_tok, sc_tok, enc_bool(tr), enc_bool(fb))
+    def f():
+        d = get_distances(b, transpose=tr, force_bipartite=fb, **kw)
+        if isinstance(d, tuple):
+            return 'ok p %s %s' % (enc_list(d[0]), enc_list(d[1]))
+        return 'ok s ' + enc_list(d)
+    impl = _call(f)
+    run = 'c10.dist %s %s %s %s %s %s' % (g, src_tok, sr_tok, sc_tok, enc_bool(tr), enc_bool(fb))
+    spec = None
+    block_src = (kw.get('source') or kw.get('source_row') or []) + [r_lim + x for x in (sc2 or [])]
+    if impl.startswith('ok p '):
+        dd = impl.split(' ')
+        spec = 'c10.spec_bdist %s %s %s %s %s' % (g, enc_bool(tr), enc_list(block_src), dd[2], dd[3])
+    elif impl.startswith('ok s '):
+        spec = 'c10.spec_dist %s %s 0 %s %s' % (g, enc_bool(tr), enc_list(kw.get('source') or []), impl[5:])
+    else:
+        # a refusal: the specification of the routing says which one is due (or that none is)
+        spec = 'c10.spec_route %d %d %s %s %s %s %s %s' % (nr, nc, src_tok, sr_tok, sc_tok, enc_bool(tr), enc_bool(fb),
+                                                         impl[4:] if impl.startswith('err ') else impl)
+    desc = {'f': 'get_distances', 'biadjacency': gdesc, 'kw': kw, 'transpose': tr, 'force_bipartite': fb}
+    out.append(Case(('bdist', g, src_tok, sr_tok, sc_tok, tr, fb),
+                    {'entry': 'get_distances', 'bipartite': True, 'transpose': tr, 'stream': tag}, run, impl, spec,
+                    b.nnz > 0 and impl.startswith('ok'), desc))
+    ctx.count('bdist:%s:fb=%d:square=%d:answer=%s' % (tag, fb, nr == nc, impl.split(' ')[0] + (impl[3:4] if impl.startswith('ok') else ' ' + impl[4:])))
+    if not tr:
+        def f2():
+            p = get_shortest_path(b, force_bipartite=fb, **kw)
+            return 'ok %d %s' % (p.shape[0], _enc_pairs(p))
+        impl = _call(f2)
+        run = 'c10.path %s %s %s %s %s' % (g, src_tok, sr_tok, sc_tok, enc_bool(fb))
         spec = None
-        if impl.startswith('ok p '):
-            block_src = (sr2 or []) + [r_lim + x for x in (sc2 or [])]
-            dd = impl.split(' ')
-            both = [x for x in (dd[2], dd[3]) if x != '-']
-            spec = 'c10.spec_dist %s %s 1 %s %s' % (g, enc_bool(tr), enc_list(block_src), ','.join(both) if both else '-')
-        out.append(Case(('bdist', g, src_tok, sr_tok, sc_tok, tr, fb),
-                        {'entry': 'get_distances', 'bipartite': True, 'transpose': tr}, run, impl, spec,
+        if impl.startswith('ok '):
+            bip = fb or nr != nc or sr_tok != '_' or sc_tok != '_'
+            srcs = block_src if bip else (kw.get('source') or [])
+            spec = 'c10.spec_path %s 0 %d %s %s %s' % (g, 1 if bip else 0, enc_list(srcs), impl.split(' ')[1],
+                                                      impl.split(' ')[2])
+        out.append(Case(('bpath', g, src_tok, sr_tok, sc_tok, fb),
+                        {'entry': 'get_shortest_path', 'bipartite': True, 'force_bipartite': fb, 'stream': tag,
+                         'via': 'source' if src_tok != '_' else 'source_row/col'}, run, impl, spec,
                         b.nnz > 0 and impl.startswith('ok'),
-                        {'f': 'get_distances', 'biadjacency': gdesc, 'kw': kw, 'transpose': tr, 'force_bipartite': fb}))
-        if not tr:
-            def f2():
-                p = get_shortest_path(b, force_bipartite=fb, **kw)
-                return 'ok %d %s' % (p.shape[0], _enc_pairs(p))
-            impl = _call(f2)
-            run = 'c10.path %s %s %s %s %s' % (g, src_tok, sr_tok, sc_tok, enc_bool(fb))
-            spec = None
-            if impl.startswith('ok ') and (fb or nr != nc or sr_tok != '_' or sc_tok != '_'):
-                block_src = (sr2 or []) + [nr + x for x in (sc2 or [])]
-                spec = 'c10.spec_path %s 0 1 %s %s' % (g, enc_list(block_src), impl.split(' ')[2])
-            out.append(Case(('bpath', g, src_tok, sr_tok, sc_tok, fb),
-                            {'entry': 'get_shortest_path', 'bipartite': True, 'force_bipartite': fb,
-                             'via': 'source' if src_tok != '_' else 'source_row/col'}, run, impl, spec,
-                            b.nnz > 0 and impl.startswith('ok'),
-                            {'f': 'get_shortest_path', 'biadjacency': gdesc, 'kw': kw, 'force_bipartite': fb}))
+                        {'f': 'get_shortest_path', 'biadjacency': gdesc, 'kw': kw, 'force_bipartite': fb}))
+
+
+def cases_for_bigraph(ctx, b, rng, full=True, only=None):
+    """Routing of get_distances / get_shortest_path on a biadjacency matrix (rectangular, or square with and
+    without force_bipartite), well-formed and malformed argument combinations."""
+    nr, nc = b.shape
+    g = enc_csr(b)
+    gdesc = {'shape': [nr, nc], 'indptr': b.indptr.tolist(), 'indices': b.indices.tolist(), 'data': b.data.tolist(),
+             'dtype': str(b.dtype)}
+    out = []
+    if only is not None:       # replay of one recorded call
+        _bi_case(ctx, b, g, gdesc, only.get('sr'), only.get('sc'), only.get('use_source', False), only['tr'], only['fb'],
+                 out, malformed=only.get('malformed', False))
+        return out
+    combos = []
+    for tr in (False, True):
+        r_lim, c_lim = (nc, nr) if tr else (nr, nc)
+        rows = [None] + [[i] for i in range(r_lim)] + ([list(range(r_lim))] if r_lim > 1 else [])
+        cols = [None] + [[j] for j in range(c_lim)] + ([list(range(c_lim))] if c_lim > 1 else [])
+        for sr in rows:
+            for sc in cols:
+                for use_source in (False, True):
+                    if use_source and sr is None:
+                        continue
+                    for fb in (False, True):
+                        combos.append((sr, sc, use_source, tr, fb))
+    if not full:
+        combos = rng.sample(combos, min(len(combos), 8))
+    for sr, sc, use_source, tr, fb in combos:
+        _bi_case(ctx, b, g, gdesc, sr, sc, use_source, tr, fb, out)
+    # malformed stream: out-of-range indices on either side, source together with source_row, nothing at all
+    bad = []
+    for tr in (False, True):
+        r_lim, c_lim = (nc, nr) if tr else (nr, nc)
+        for fb in (False, True):
+            bad += [([r_lim + c_lim], None, True, tr, fb),          # source = n_row + n_col : outside the block graph
+                    ([r_lim + c_lim], None, False, tr, fb),         # source_row = n_row + n_col
+                    (None, [c_lim], False, tr, fb),                 # source_col = n_col
+                    ([0] if r_lim else None, [c_lim + 1], False, tr, fb),
+                    ([r_lim], None, True, tr, fb),                  # source = n_row: a column node (bipartite) / out of range (plain)
+                    (None, None, False, tr, fb),                    # nothing given
+                    (None, None, ([0], [0]), tr, fb)]               # source and source_row
+    if not full:
+        bad = rng.sample(bad, 6)
+    for sr, sc, use_source, tr, fb in bad:
+        _bi_case(ctx, b, g, gdesc, sr, sc, use_source, tr, fb, out, malformed=True)
     return out
 
 
@@ -207,9 +275,7 @@ def _same(c, model, impl, spec_ok):
     if c.canon == 'bfs' and model.startswith('ok') and impl.startswith('ok'):
         # np.argsort may order ties differently: the spec line is the judge of the order
         return sorted(dec_list(model[3:])) == sorted(dec_list(impl[3:])) and spec_ok
-    if c.spec is None and model.startswith('err') and impl.startswith('err'):
-        return True   # numpy words an error differently; same place, same refusal
-    return False
+    return False   # error answers are compared by exception class (model and numpy agree on all of them)
 
 
 def evaluate(ctx, cases):
@@ -244,8 +310,35 @@ def build_cases(ctx):
         if rng.random() < 0.5:
             a = graphs.unsorted_copy(a, rng)
         subs = [[rng.randrange(n)], sorted(rng.sample(range(n), min(n, 3)))]
-        cases += cases_for_graph(ctx, a, rng, subs, full=False)
+        cases += cases_for_graph(ctx, a, rng, subs, full=False, transposes=rng.random() < 0.34)
         ctx.count('structured:' + name.rstrip('0123456789'))
+    # long graphs: distances beyond any small constant (directed path, cycle, grid), 40-70 nodes
+    for kind in ('path', 'cycle', 'grid'):
+        n = rng.randint(24, 30) if quick else rng.randint(36, 44)
+        if kind == 'path':
+            es = [(i, i + 1) for i in range(n - 1)]
+        elif kind == 'cycle':
+            es = [(i, (i + 1) % n) for i in range(n)]
+        else:
+            w = rng.randint(4, 5) if quick else rng.randint(5, 6)
+            n = w * (rng.randint(5, 6) if quick else rng.randint(6, 7))
+            es = [(i, i + 1) for i in range(n) if (i + 1) % w] + [(i, i + w) for i in range(n - w)]
+            es += [(j, i) for i, j in es]
+        a = _mk(n, es, [1] * len(es))
+        cases += cases_for_graph(ctx, a, rng, [[rng.randrange(n)], [0]], full=False, transposes=True)
+        ctx.count('long:' + kind)
+    # degenerate shapes and non-canonical storage
+    for shape in ((0, 0), (2, 0), (0, 2), (1, 1)):
+        b = sparse.csr_matrix(shape, dtype=float)
+        if shape[0] == shape[1]:
+            subs = [[0]] if shape[0] else [[]]
+            cases += cases_for_graph(ctx, b, rng, subs, full=True)
+        cases += cases_for_bigraph(ctx, b, rng, full=True)
+        ctx.count('degenerate:%dx%d' % shape)
+    # duplicate stored entries, one pair cancelling (+1, -1 at the same position), indices unsorted
+    dup = sparse.csr_matrix((np.array([1., -1., 2., 1., 1.]), np.array([1, 1, 2, 0, 0]), np.array([0, 3, 5, 5])), shape=(3, 3))
+    cases += cases_for_graph(ctx, dup, rng, [[0], [1], [0, 2]], full=True)
+    ctx.count('degenerate:duplicates')
     # bipartite routing: all 0/1 biadjacency up to 2x3 / 3x2 / 2x2 forced
     shapes = [(1, 2), (2, 1), (2, 2), (2, 3), (3, 2)] + ([] if quick else [(3, 3), (1, 3)])
     for nr, nc in shapes:
@@ -259,8 +352,23 @@ def build_cases(ctx):
     return cases
 
 
+def corpus_cases(ctx):
+    """Minimised past failing inputs (corpus/C10.jsonl) are replayed first."""
+    import json
+    import os
+    path = os.path.join(os.path.dirname(os.path.dirname(os.path.dirname(os.path.abspath(__file__)))), 'corpus', 'C10.jsonl')
+    cases = []
+    if os.path.exists(path):
+        for ln in open(path):
+            ln = ln.strip()
+            if ln and not ln.startswith('#'):
+                cases += _cases_of(ctx, json.loads(ln)['case'], neighbourhood=False)
+                ctx.count('corpus')
+    return cases
+
+
 def run(ctx):
-    cases = build_cases(ctx)
+    cases = corpus_cases(ctx) + build_cases(ctx)
     evaluate(ctx, cases)
 
 
@@ -282,22 +390,45 @@ def search(ctx, pending):
     return sub.found()
 
 
-def replay(ctx, payload):
-    """Re-run one recorded failing input against the current tree."""
-    from sknetwork.path import get_distances, get_shortest_path, breadth_first_search, get_dag
-    case = payload.get('case') or {}
+def _matrix_of(gd, shape):
+    dt = {'bool': bool, 'int64': np.int64, 'int32': np.int32, 'uint8': np.uint8}.get(gd.get('dtype', 'float64'), float)
+    return sparse.csr_matrix((np.array(gd['data']).astype(dt), np.array(gd['indices'], dtype=np.int32),
+                              np.array(gd['indptr'], dtype=np.int32)), shape=shape)
+
+
+def _cases_of(ctx, case, neighbourhood=True):
+    """The recorded case itself (same matrix with its dtype, same argument form, same order vector, same flags),
+    then — for a replay — its neighbourhood (all source sets / argument combinations on the same matrix)."""
     rng = ctx.rng
+    cs = []
     if 'graph' in case:
         gd = case['graph']
-        a = sparse.csr_matrix((np.array(gd['data'], dtype=float), np.array(gd['indices']), np.array(gd['indptr'])),
-                              shape=(gd['n'], gd['n']))
-        srcs = [case['source']] if isinstance(case.get('source'), list) else list(graphs.nonempty_subsets(gd['n']))
-        cs = cases_for_graph(ctx, a, rng, srcs, full=True)
+        a = _matrix_of(gd, (gd['n'], gd['n']))
+        if 'order' in case:
+            cs += cases_for_graph(ctx, a, rng, [], full=False, orders=[case['order']], bfs_nodes=[])
+        elif isinstance(case.get('source'), list):
+            s = case['source']
+            cs += cases_for_graph(ctx, a, rng, [s], full=True, forms={tuple(s): case.get('form')}, orders=[], bfs_nodes=[])
+        elif isinstance(case.get('source'), int):
+            cs += cases_for_graph(ctx, a, rng, [], full=False, orders=[], bfs_nodes=[case['source']])
+        if neighbourhood:
+            cs += cases_for_graph(ctx, a, rng, list(graphs.nonempty_subsets(gd['n']))[:31], full=True)
     elif 'biadjacency' in case:
         gd = case['biadjacency']
-        b = sparse.csr_matrix((np.array(gd['data'], dtype=float), np.array(gd['indices']), np.array(gd['indptr'])),
-                              shape=tuple(gd['shape']))
-        cs = cases_for_bigraph(ctx, b, rng, full=True)
-    else:
-        cs = build_cases(ctx)
+        b = _matrix_of(gd, tuple(gd['shape']))
+        kw = case.get('kw', {})
+        both = 'source' in kw and 'source_row' in kw
+        only = {'sr': kw.get('source', kw.get('source_row')) if not both else None, 'sc': kw.get('source_col'),
+                'use_source': ((kw['source'], kw['source_row']) if both else ('source' in kw)),
+                'tr': bool(case.get('transpose', False)), 'fb': bool(case.get('force_bipartite', False))}
+        cs += cases_for_bigraph(ctx, b, rng, only=only)
+        if neighbourhood:
+            cs += cases_for_bigraph(ctx, b, rng, full=True)
+    return cs
+
+
+def replay(ctx, payload):
+    """Re-run the recorded failing input against the current tree, then its neighbourhood."""
+    case = payload.get('case') or {}
+    cs = _cases_of(ctx, case) if ('graph' in case or 'biadjacency' in case) else build_cases(ctx)
     evaluate(ctx, cs)
